@@ -141,18 +141,22 @@ type Outcome struct {
 	Val    Val
 	// Unsure is set when the model met something it refuses to predict; the run is then not judged.
 	Unsure string
+	// CaughtAsData is set when a failed try step's error was taken out as a value (`.err`):
+	// from then on an error object may legitimately live in variables and results
+	CaughtAsData bool
 }
 
 // Model interprets a generated program.
 type Model struct {
-	Plan    map[int]PlanEntry
-	trace   []int
-	nofault []bool
-	paths   []string
-	path    []string
-	nfDepth int
-	unsure  string
-	steps   int
+	Plan         map[int]PlanEntry
+	trace        []int
+	nofault      []bool
+	paths        []string
+	path         []string
+	nfDepth      int
+	unsure       string
+	caughtAsData bool
+	steps        int
 }
 
 type ctl int
@@ -177,7 +181,7 @@ func Run(p *Program, plan map[int]PlanEntry) Outcome {
 	m := &Model{Plan: plan}
 	env := newMEnv(nil)
 	r := m.body(p.Stmts, env)
-	o := Outcome{Trace: m.trace, NoFault: m.nofault, Paths: m.paths, Val: r.v, Unsure: m.unsure}
+	o := Outcome{Trace: m.trace, NoFault: m.nofault, Paths: m.paths, Val: r.v, Unsure: m.unsure, CaughtAsData: m.caughtAsData}
 	if r.c == cRaise {
 		o.Raised = r.err
 	}
@@ -642,6 +646,14 @@ func (m *Model) eval(n *N, env *MEnv) res {
 			return norm(r.v)
 		case "err?":
 			return norm(vBool(failed))
+		case "err":
+			// the caught error as a value (nil when the step succeeded): a value, not a raise,
+			// wherever it is used afterwards
+			if failed {
+				m.caughtAsData = true
+				return norm(vOpq)
+			}
+			return norm(vNil)
 		}
 		return m.giveUp("unknown try accessor")
 	case KNative:
